@@ -1,6 +1,7 @@
 import AgModel.Proofs.PoolGlue
 import AgModel.Proofs.ParentReadyRun
 import AgModel.Proofs.FinalityRun
+import AgModel.Proofs.FinalitySafeDec
 /-!
 # Pool-level wiring of the two trackers (C07 part A)
 
@@ -1392,5 +1393,82 @@ theorem poolRun_wired (ops : List PoolOp) (p : Pool) (L : List LogItem) (w : Wir
     simp only [poolLog, poolRun] at hc ⊢
     rw [← List.append_assoc] at hc ⊢
     exact ih _ _ (poolStep_wired p op L w hc.prefix) hc
+
+/-! ### above the current watermark every certificate mark was accepted -/
+
+/-- the watermark only moves forward along the log -/
+theorem finState_first_mono {pre L : List LogItem} (hp : pre <+: L) (hs : Finality.Safe (finOps L)) :
+    (finState pre).first ≤ (finState L).first := by
+  obtain ⟨post, rfl⟩ := hp
+  have hsub : Finality.Sub (finOps pre) (finOps (pre ++ post)) := finOps_sub (fun _ hx => List.mem_append_left _ hx)
+  obtain ⟨f1, h1, _⟩ := trace_inv pre (hs.sub hsub)
+  obtain ⟨f2, h2, _⟩ := trace_inv (pre ++ post) hs
+  rw [finOps_append, fin_run_append, h1] at h2
+  simp only at h2
+  cases hr : Finality.run (finState pre) (finOps post) with
+  | none => rw [hr] at h2; cases h2
+  | some r =>
+    obtain ⟨t2, e2⟩ := r
+    rw [hr] at h2
+    simp only [Option.some.injEq, Prod.mk.injEq] at h2
+    have := (Finality.run_inv (Finality.run_inv Finality.inv_init h1).1 hr).2.2
+    rw [h2.1] at this
+    exact this
+
+/-- for a slot at or above the current watermark the qualification "while the slot was above the root" is void:
+    the notar-fallback mark of every notarization / notar-fallback certificate in the log was accepted -/
+theorem nfCertAcc_above {L : List LogItem} (hs : Finality.Safe (finOps L)) {b : Nat × Nat}
+    (hb : (finState L).first ≤ b.1) :
+    NfCertAcc L b ↔ ∃ c, LogItem.cert c ∈ L ∧ (c.kind = .notar ∨ c.kind = .nf) ∧ (c.slot, c.hash) = b := by
+  constructor
+  · rintro ⟨pre, c, hp, hk, he, _⟩
+    exact ⟨c, List.IsPrefix.mem (List.mem_append_right _ (List.mem_singleton.mpr rfl)) hp, hk, he⟩
+  · rintro ⟨c, hm, hk, he⟩
+    obtain ⟨pre, post, rfl⟩ := List.append_of_mem hm
+    have hp : (pre ++ [LogItem.cert c]) <+: (pre ++ LogItem.cert c :: post) := ⟨post, by simp⟩
+    exact ⟨pre, c, hp, hk, he, Nat.le_trans (finState_first_mono hp hs) hb⟩
+
+theorem skCertAcc_above {L : List LogItem} (hs : Finality.Safe (finOps L)) {s : Nat}
+    (hb : (finState L).first ≤ s) : SkCertAcc L s ↔ SkipCertIn L s := by
+  constructor
+  · rintro ⟨pre, c, hp, hk, he, _⟩
+    exact ⟨c, List.IsPrefix.mem (List.mem_append_right _ (List.mem_singleton.mpr rfl)) hp, hk, he⟩
+  · rintro ⟨c, hm, hk, he⟩
+    obtain ⟨pre, post, rfl⟩ := List.append_of_mem hm
+    have hp : (pre ++ [LogItem.cert c]) <+: (pre ++ LogItem.cert c :: post) := ⟨post, by simp⟩
+    have hp0 : pre <+: (pre ++ LogItem.cert c :: post) := List.prefix_append _ _
+    exact ⟨pre, c, hp, hk, he, Nat.le_trans (finState_first_mono hp0 hs) hb⟩
+
+/-! ### the premise is decidable -/
+
+/-- `Consistent` with bounded quantifiers -/
+def ConsistentC (L : List LogItem) : Prop :=
+  Finality.Safe (finOps L) ∧
+  ∀ it ∈ L, match it with
+    | .cert c => c.kind = .skip → ∀ b ∈ Finality.finals (finOps L), b.1 ≠ c.slot
+    | .block _ _ => True
+
+instance (L : List LogItem) : Decidable (ConsistentC L) := by
+  unfold ConsistentC
+  have : ∀ it : LogItem, Decidable (match it with
+    | .cert c => c.kind = .skip → ∀ b ∈ Finality.finals (finOps L), b.1 ≠ c.slot
+    | .block _ _ => True) := by
+    intro it; cases it <;> infer_instance
+  infer_instance
+
+theorem consistentC_iff {L : List LogItem} : ConsistentC L ↔ Consistent L := by
+  constructor
+  · rintro ⟨sf, h⟩
+    refine ⟨sf, fun c hm hk hh hf => ?_⟩
+    exact h (.cert c) hm hk (c.slot, hh) ((Finality.mem_finals sf.link_lt).mpr hf) rfl
+  · rintro ⟨sf, h⟩
+    refine ⟨sf, fun it hm => ?_⟩
+    cases it with
+    | block b par => trivial
+    | cert c =>
+      intro hk b hb e
+      exact h c hm hk b.2 (by rw [← e]; exact (Finality.mem_finals sf.link_lt).mp hb)
+
+instance (L : List LogItem) : Decidable (Consistent L) := decidable_of_iff _ consistentC_iff
 
 end AgModel.Pool
